@@ -193,11 +193,11 @@ var plans = map[string]*plan{
 	"C12": {
 		Level: "exploration",
 		Rule: "client API vs scripted TCP peer on 127.0.0.1: batches of 4..15 Publish(QoS 0/1/2)/Subscribe/Unsubscribe/Ping calls with completion callbacks stamped from one global counter; the peer stamps every ack before writing it and acknowledges in orders {FIFO, reversed, random, delayed, PUBCOMP long after PUBREC, random with duplicated acks and acks for unused ids}; a peer PINGREQ->PINGRESP round trip is the barrier. Oracle: every callback fires exactly once, not before its terminal ack was sent, and has fired at the barrier once its ack and those of all earlier requests of the same kind were sent; QoS 0 completes before Publish returns; #PUBREL(id) = #PUBREC(id); in-flight identifiers non-zero and distinct. " +
-			"In every third script the yield hook parks the sending call between write and registration, the peer's ack is sent and the processor's proc.handled event awaited before the call is released (the 'ack processed before registered' schedule, forced). Broker-to-subscriber (synctest): 2..4 publishers reuse identifiers 1,2 at QoS 1/2 towards a subscriber that withholds acks; unacknowledged inbound PUBLISH identifiers must be non-zero and pairwise distinct, PUBREC answered by PUBREL with the same id. Bursts: after 1..11 completed requests of one kind, 17..46 requests of that kind are outstanding at once (the ack queue grows while wrapped) and are acknowledged in order with a barrier after each. Concurrent issuers: 2..4 library Clients in one process, each used by 4..8 goroutines issuing 150..400 id-less mixed requests each from a common start signal while the peers withhold all acknowledgements; the identifiers in flight per connection (600..3200) must be non-zero and pairwise distinct, then everything is acknowledged in a seeded order and every completion must have fired exactly once, not before its acknowledgement. distinct = (ack order, forced, request kinds, batch size) and b2s configurations.",
-		Quick:          []batchSpec{{Test: "TestC12Client", N: 8, Timeout: 15 * m}, {Test: "TestC12Broker", N: 4, Timeout: 10 * m}, {Test: "TestC12Burst", N: 4, Timeout: 10 * m}, {Test: "TestC12Concurrent", N: 4, Timeout: 15 * m}},
-		Thorough:       []batchSpec{{Test: "TestC12Client", N: 16, Timeout: 60 * m}, {Test: "TestC12Broker", N: 8, Timeout: 30 * m}, {Test: "TestC12Burst", N: 8, Timeout: 30 * m}, {Test: "TestC12Concurrent", N: 8, Timeout: 60 * m}, {Test: "TestC12Client", N: 8, Race: true, Timeout: 60 * m}},
+			"In every third script the yield hook parks the sending call between write and registration, the peer's ack is sent and the processor's proc.handled event awaited before the call is released (the 'ack processed before registered' schedule, forced). Broker-to-subscriber (synctest): 2..4 publishers reuse identifiers 1,2 at QoS 1/2 towards a subscriber that withholds acks; unacknowledged inbound PUBLISH identifiers must be non-zero and pairwise distinct, PUBREC answered by PUBREL with the same id. Bursts: after 1..11 completed requests of one kind, 17..46 requests of that kind are outstanding at once (the ack queue grows while wrapped) and are acknowledged in order with a barrier after each. Concurrent issuers: 2..4 library Clients in one process, each used by 4..8 goroutines issuing 150..400 id-less mixed requests each from a common start signal while the peers withhold all acknowledgements; the identifiers in flight per connection (600..3200) must be non-zero and pairwise distinct, then everything is acknowledged in a seeded order and every completion must have fired exactly once, not before its acknowledgement. Wrap-around: while one request of client A is unacknowledged another Client of the process issues id-less requests (about 65534) until the numbering it draws from stands just before A's identifier; A's next request must carry a different identifier and both must complete. distinct = (ack order, forced, request kinds, batch size) and b2s configurations.",
+		Quick:          []batchSpec{{Test: "TestC12Client", N: 8, Timeout: 15 * m}, {Test: "TestC12Broker", N: 4, Timeout: 10 * m}, {Test: "TestC12Burst", N: 4, Timeout: 10 * m}, {Test: "TestC12Concurrent", N: 4, Timeout: 15 * m}, {Test: "TestC12Wrap", N: 4, Timeout: 15 * m}},
+		Thorough:       []batchSpec{{Test: "TestC12Client", N: 16, Timeout: 60 * m}, {Test: "TestC12Broker", N: 8, Timeout: 30 * m}, {Test: "TestC12Burst", N: 8, Timeout: 30 * m}, {Test: "TestC12Concurrent", N: 8, Timeout: 60 * m}, {Test: "TestC12Wrap", N: 8, Timeout: 60 * m}, {Test: "TestC12Client", N: 8, Race: true, Timeout: 60 * m}},
 		EvalStats:      []string{"c12.scripts", "c12.b2s_scenarios"},
-		Floors:         map[string]int64{"c12.scripts": 340, "c12.forced_interleavings": 100, "c12.requests": 2500, "c12.b2s_scenarios": 190, "c12.b2s_inflight_checked": 300, "c12.bursts": 44, "c12.conc_cases": 20, "classes": 60},
+		Floors:         map[string]int64{"c12.scripts": 340, "c12.forced_interleavings": 100, "c12.requests": 2500, "c12.b2s_scenarios": 190, "c12.b2s_inflight_checked": 300, "c12.bursts": 44, "c12.conc_cases": 20, "c12.wrap_cases": 4, "classes": 60},
 		FloorsThorough: map[string]int64{"c12.scripts": 7000, "c12.forced_interleavings": 2000, "classes": 100},
 		Assumptions:    []string{"the client's processor handles inbound packets sequentially, so a PINGREQ/PINGRESP round trip is a barrier", "the forced interleaving parks a goroutine that holds no library lock (legal schedule)"},
 	},
